@@ -141,7 +141,9 @@ PROPS["C11"] = {
              "Relay: otr3 A and B each in its own session with a reference-party half of the relay (own key), SMP TLVs forwarded verbatim both ways, both victims answer; no Success ever, also with equal secrets. "
              "Non-trivial: rotations happened around the run or several runs back to back; relay: the run reached the final comparison/verification."),
     "assumptions": COMMON_ASSUME,
+    "exhaustive_checks": ["C11short"],
     "tests": [
+        {"name": "TestProp_C11_ShortValues", "kind": "plain", "quick": {"shards": 13, "timeout": 900}, "thorough": {"shards": 16, "timeout": 3000}},
         {"name": "TestProp_C11_Session", "quick": {"shards": 8, "checks": 12, "timeout": 400}, "thorough": {"shards": 16, "checks": 200, "timeout": 3000}},
         {"name": "TestProp_C11_Relay", "quick": {"shards": 8, "checks": 12, "timeout": 400}, "thorough": {"shards": 16, "checks": 200, "timeout": 3000}},
     ],
